@@ -23,6 +23,8 @@ THEOREMS = [
     'C03.storage_refines', 'C03.storage_coord', 'C03.adjacent_bins', 'C03.ghost_exists',
     'C03.compared_complete', 'C03.alg_complete', 'C03.nlistA_complete', 'C03.dist2_symm',
     'C03.nlist_text_roundtrip',
+    'C03.bins_refine', 'C03.src_bins_sound', 'C03.cands_table_eq', 'C03.nlistFull_complete',
+    'C03.nbr_growth_as_modelled', 'C03.answers_fresh', 'C03.answers_history_independent', 'C03.answers_complete',
 ]
 PARTIAL = {}
 RULE = ('systems: orthogonal / tilted / general (rotated, left-handed) cells with non-zero origin, all 8 pbc '
@@ -566,6 +568,87 @@ def exact_classes(case):
     return out
 
 
+def true_nearest(case, kmax=3000):
+    """True nearest-image squared distances over ALL lattice shifts n in Z^3 (zero along non-periodic directions),
+    independent of atomman and of the 27-candidate rule.  Radius: if |d + n.V| < r then, with s = d.V^-1 the relative
+    separation and recip_i the i-th column of V^-1,  |n_i + s_i| = |(d + n.V).recip_i| <= r |recip_i|  (Cauchy-
+    Schwarz; same argument as C02 `search_radius_sound`), so only |n_i| <= |s_i| + r / w_i  can give an image nearer
+    than r (w_i = 1/|recip_i| the perpendicular width).  With r = the 27-candidate distance of the pair (bounded by
+    the cell diameter) every nearer image is inside the enumerated range.
+    Returns None when more than `kmax` shifts would be needed, else dict (i,j) -> (min27, true_min) as exact
+    Fractions of squared distances (float prefilter, exact integers for the candidates within 1e-6 of the minimum)."""
+    np = _np()
+    n = len(case['pos'])
+    if n < 2:
+        return {}
+    V = np.array(case['vects'], dtype=float)
+    P = np.array(case['pos'], dtype=float).reshape(-1, 3)
+    inv = np.linalg.inv(V)
+    rn = [math.sqrt(float((inv[:, i] ** 2).sum())) for i in range(3)]
+    d0 = P[None, :, :] - P[:, None, :]
+    S = np.abs(d0 @ inv).reshape(-1, 3).max(axis=0)
+    # 27-candidate minimum in floats (only to size the search), the cell diagonal bounds it anyway
+    sh27 = np.array([[x, y, z] for x in ((-1, 0, 1) if case['pbc'][0] else (0,))
+                     for y in ((-1, 0, 1) if case['pbc'][1] else (0,))
+                     for z in ((-1, 0, 1) if case['pbc'][2] else (0,))], dtype=float)
+    m27 = None
+    for t in sh27:
+        d = d0 + t @ V
+        m = (d * d).sum(axis=-1)
+        m27 = m if m27 is None else np.minimum(m27, m)
+    rmax = math.sqrt(float(m27.max())) * (1 + 1e-9)
+    R = [int(math.floor(S[i] + rmax * rn[i] + 1e-9)) + 1 if case['pbc'][i] else 0 for i in range(3)]
+    K = (2 * R[0] + 1) * (2 * R[1] + 1) * (2 * R[2] + 1)
+    if K > kmax:
+        return None
+    shifts = [(x, y, z) for x in range(-R[0], R[0] + 1) for y in range(-R[1], R[1] + 1) for z in range(-R[2], R[2] + 1)]
+    T = np.array(shifts, dtype=float) @ V                                  # K x 3
+    v, pos, c, D = _scaled_ints(case)
+    Ti = [(x * v[0][0] + y * v[1][0] + z * v[2][0], x * v[0][1] + y * v[1][1] + z * v[2][1],
+           x * v[0][2] + y * v[1][2] + z * v[2][2]) for (x, y, z) in shifts]
+    sh = _shifts(case, v)
+    out = {}
+    for i in range(n):
+        dd = d0[i][:, None, :] + T[None, :, :]                              # n x K x 3
+        m = (dd * dd).sum(axis=-1)                                          # n x K
+        mn = m.min(axis=1)
+        for j in range(i + 1, n):
+            di = (pos[j][0] - pos[i][0], pos[j][1] - pos[i][1], pos[j][2] - pos[i][2])
+            near = np.nonzero(m[j] <= mn[j] * (1 + 1e-6) + 1e-300)[0]
+            tm = min((di[0] + Ti[k][0]) ** 2 + (di[1] + Ti[k][1]) ** 2 + (di[2] + Ti[k][2]) ** 2 for k in near)
+            b27 = min((di[0] + t[0]) ** 2 + (di[1] + t[1]) ** 2 + (di[2] + t[2]) ** 2 for t in sh)
+            out[(i, j)] = (Fraction(b27, D * D), Fraction(tm, D * D))
+    return out
+
+
+def _true_nearest_report(ctx, case, rows):
+    """The claim of the property is about the periodic distance in the sense of C02 (the shortest of the 27
+    candidates).  Record how it relates to the true nearest image, check the oracle against the C02 theorem
+    (`tilted_true_nearest`: a true nearest image shorter than half the smallest periodic width IS the 27-candidate
+    result) and count the pairs that are nearer than the cutoff only through a second-neighbour image (no claim)."""
+    np = _np()
+    tn = true_nearest(case)
+    if tn is None:
+        ctx.extra['true_nearest_skipped_cases'] = ctx.extra.get('true_nearest_skipped_cases', 0) + 1
+        return
+    w = _widths(case['vects'])
+    wp = [w[k] for k in range(3) if case['pbc'][k]]
+    half2 = Fraction(min(wp)) ** 2 / 4 if wp else None
+    c2 = Fraction(case['cutoff']) ** 2
+    sets = [set(r) for r in rows]
+    for (i, j), (b27, tm) in tn.items():
+        assert tm <= b27, 'oracle: enumerated minimum above the 27-candidate minimum'
+        ctx.extra['true_nearest_pairs'] = ctx.extra.get('true_nearest_pairs', 0) + 1
+        if half2 is not None and tm < half2 * (1 - Fraction(1, 10 ** 9)):
+            assert tm == b27, f'oracle: true nearest image below half the width but not among the 27: {case}'
+        if tm != b27:
+            ctx.extra['pairs_27_not_true_nearest'] = ctx.extra.get('pairs_27_not_true_nearest', 0) + 1
+            if tm < c2 <= b27:
+                ctx.extra['pairs_below_cutoff_only_beyond_27'] = ctx.extra.get('pairs_below_cutoff_only_beyond_27', 0) + 1
+                if j in sets[i]:
+                    ctx.extra['beyond_27_listed'] = ctx.extra.get('beyond_27_listed', 0) + 1
+
+
 def clauses(case, rows, coord, cls=None):
     """the property's clauses on one result; returns [(key, text)]."""
     n = len(case['pos'])
@@ -616,6 +699,168 @@ def _payload(case, **kw):
     d = {'op': 'nlist', 'case': case}
     d.update(kw)
     return d
+
+
+# ----------------------------------------------------------------------------------------
+# translator: the storage-growth code of nlist.pyx -> lean/Atomman/Generated/NlistStorage.lean
+# ----------------------------------------------------------------------------------------
+GENERATED = ['NlistStorage']
+
+_BIN_BLOCK = [
+    r'c = xyzbins\[x, y, z, 0\] \+ 1',
+    r'if (?P<bin_trigger>.+):',
+    r'newbins = np\.zeros\(\(numxbins, numybins, numzbins, (?P<bin_width>.+)\), dtype=np\.int64\)',
+    r'for i in range\(xyzbins\.shape\[0\]\):',
+    r'for j in range\(xyzbins\.shape\[1\]\):',
+    r'for k in range\(xyzbins\.shape\[2\]\):',
+    r'for l in range\((?P<bin_copy>.+)\):',
+    r'newbins\[i, j, k, l\] = xyzbins\[i, j, k, l\]',
+    r'xyzbins = newbins',
+    r'maxatomsperbin \+= (?P<bin_grow>.+)',
+    r'if c > maxc:',
+    r'maxc = c',
+    r'xyzbins\[x, y, z, 0\] = c',
+    r'xyzbins\[x, y, z, c\] = atomindex\[n\]',
+]
+_NBR_BLOCK = [
+    r'neighbors\[uindex, 0\] \+= 1',
+    r'neighbors\[vindex, 0\] \+= 1',
+    r'if (?P<nbr_trigger>.+):',
+    r'newneighbors = np\.empty\(\(natoms, (?P<nbr_width>.+)\), dtype=np\.int64\)',
+    r'for j in range\(neighbors\.shape\[0\]\):',
+    r'for k in range\((?P<nbr_copy>.+)\):',
+    r'newneighbors\[j, k\] = neighbors\[j, k\]',
+    r'neighbors = newneighbors',
+    r'maxneighbors \+= (?P<nbr_grow>.+)',
+]
+_SINGLE = [
+    r'cdef Py_ssize_t maxatomsperbin = (?P<bin_init>\d+)',
+    r'xyzbins = np\.zeros\(\(numxbins, numybins, numzbins, (?P<bin_init_width>.+)\), dtype=np\.int64\)',
+    r'cdef Py_ssize_t maxneighbors = (?P<nbr_init>.+)',
+    r'cdef long long\[:, :\] neighbors = np\.empty\(\(natoms, (?P<nbr_init_width>.+)\), dtype=np\.int64\)',
+]
+
+
+def _code_lines(src):
+    import re
+    out = []
+    for l in src.splitlines():
+        l = re.sub(r'#.*$', '', l).strip()
+        if l:
+            out.append(l)
+    return out
+
+
+def _match_block(lines, pats, what):
+    import re
+    from ..translate import TranslationError
+    hits = []
+    for k in range(len(lines) - len(pats) + 1):
+        if re.fullmatch(pats[0], lines[k]):
+            g = {}
+            for off, pat in enumerate(pats):
+                m = re.fullmatch(pat, lines[k + off])
+                if not m:
+                    g = None
+                    break
+                g.update(m.groupdict())
+            if g is not None:
+                hits.append(g)
+    if len(hits) != 1:
+        raise TranslationError(f'nlist.pyx: the {what} block no longer has the translated shape ({len(hits)} matches)')
+    return hits[0]
+
+
+def _nat_expr(text, names):
+    """restricted integer expression -> Lean term over Nat: names, literals, +, *, comparisons, and/or/not.
+    (no subtraction / division: they would not mean the same on Nat)."""
+    import ast
+    from ..translate import TranslationError
+    subst = {'neighbors[uindex, 0]': 'cu', 'neighbors[vindex, 0]': 'cv'}
+    for a, b in subst.items():
+        text = text.replace(a, b)
+    try:
+        tree = ast.parse(text.strip(), mode='eval').body
+    except SyntaxError as e:
+        raise TranslationError(f'nlist.pyx: cannot parse {text!r}: {e}')
+
+    def go(n):
+        if isinstance(n, ast.Constant) and isinstance(n.value, int) and not isinstance(n.value, bool) and n.value >= 0:
+            return str(n.value)
+        if isinstance(n, ast.Name) and n.id in names:
+            return n.id
+        if isinstance(n, ast.BinOp) and isinstance(n.op, (ast.Add, ast.Mult)):
+            return f'({go(n.left)} {"+" if isinstance(n.op, ast.Add) else "*"} {go(n.right)})'
+        if isinstance(n, ast.Compare) and len(n.ops) == 1:
+            a, b = go(n.left), go(n.comparators[0])
+            op = n.ops[0]
+            if isinstance(op, ast.Eq):
+                return f'decide ({a} = {b})'
+            if isinstance(op, ast.NotEq):
+                return f'decide ({a} ≠ {b})'
+            if isinstance(op, ast.Gt):
+                return f'decide ({b} < {a})'
+            if isinstance(op, ast.GtE):
+                return f'decide ({b} ≤ {a})'
+            if isinstance(op, ast.Lt):
+                return f'decide ({a} < {b})'
+            if isinstance(op, ast.LtE):
+                return f'decide ({a} ≤ {b})'
+        if isinstance(n, ast.BoolOp):
+            j = ' || ' if isinstance(n.op, ast.Or) else ' && '
+            return '(' + j.join(go(v) for v in n.values) + ')'
+        if isinstance(n, ast.UnaryOp) and isinstance(n.op, ast.Not):
+            return f'(!{go(n.operand)})'
+        raise TranslationError(f'nlist.pyx: expression outside the translated subset: {text!r}')
+    return go(tree)
+
+
+def translate():
+    from ..translate import TranslationError
+    lines = _code_lines(cm.source('atomman/core/nlist.pyx'))
+    g = {}
+    g.update(_match_block(lines, _BIN_BLOCK, 'bin-table growth'))
+    g.update(_match_block(lines, _NBR_BLOCK, 'neighbor-array growth'))
+    import re
+    for pat in _SINGLE:
+        hits = [m for m in (re.fullmatch(pat, l) for l in lines) if m]
+        if len(hits) != 1:
+            raise TranslationError(f'nlist.pyx: statement /{pat}/ found {len(hits)} times')
+        g.update(hits[0].groupdict())
+    B = ['c', 'maxatomsperbin']
+    N = ['cu', 'cv', 'maxneighbors', 'deltasize']
+    out = [
+        '/- GENERATED by harness/props/c03.py from atomman/core/nlist.pyx — do not edit.',
+        '   The constants and tests of the two capacity-growth blocks of `nlist` (bin table `xyzbins`, per-atom',
+        '   array `neighbors`), each as the expression that stands in the source. -/',
+        'namespace Atomman.C03.Gen', '',
+        f'/-- `cdef Py_ssize_t maxatomsperbin = {g["bin_init"]}` -/',
+        f'def binInit : Nat := {g["bin_init"]}',
+        f'/-- `xyzbins = np.zeros((numxbins, numybins, numzbins, {g["bin_init_width"]}), …)` -/',
+        f'def binInitWidth (maxatomsperbin : Nat) : Nat := {_nat_expr(g["bin_init_width"], B[1:])}',
+        f'/-- `if {g["bin_trigger"]}:` -/',
+        f'def binTrigger (c maxatomsperbin : Nat) : Bool := {_nat_expr(g["bin_trigger"], B)}',
+        f'/-- `newbins = np.zeros((numxbins, numybins, numzbins, {g["bin_width"]}), …)` -/',
+        f'def binNewWidth (maxatomsperbin : Nat) : Nat := {_nat_expr(g["bin_width"], B[1:])}',
+        f'/-- `for l in range({g["bin_copy"]}):` -/',
+        f'def binCopyCols (maxatomsperbin : Nat) : Nat := {_nat_expr(g["bin_copy"], B[1:])}',
+        f'/-- `maxatomsperbin += {g["bin_grow"]}` -/',
+        f'def binGrow (maxatomsperbin : Nat) : Nat := maxatomsperbin + {_nat_expr(g["bin_grow"], B[1:])}',
+        '',
+        f'/-- `cdef Py_ssize_t maxneighbors = {g["nbr_init"]}` -/',
+        f'def nbrInit (initialsize : Nat) : Nat := {_nat_expr(g["nbr_init"], ["initialsize"])}',
+        f'/-- `neighbors = np.empty((natoms, {g["nbr_init_width"]}), …)` -/',
+        f'def nbrInitWidth (maxneighbors : Nat) : Nat := {_nat_expr(g["nbr_init_width"], N[2:3])}',
+        f'/-- `if {g["nbr_trigger"]}:` (`cu`, `cv`: the two coordination numbers after the increment) -/',
+        f'def nbrTrigger (cu cv maxneighbors : Nat) : Bool := {_nat_expr(g["nbr_trigger"], N[:3])}',
+        f'/-- `newneighbors = np.empty((natoms, {g["nbr_width"]}), …)` -/',
+        f'def nbrNewWidth (maxneighbors deltasize : Nat) : Nat := {_nat_expr(g["nbr_width"], N[2:])}',
+        f'/-- `for k in range({g["nbr_copy"]}):` -/',
+        f'def nbrCopyCols (maxneighbors : Nat) : Nat := {_nat_expr(g["nbr_copy"], N[2:3])}',
+        f'/-- `maxneighbors += {g["nbr_grow"]}` -/',
+        f'def nbrGrow (maxneighbors deltasize : Nat) : Nat := maxneighbors + {_nat_expr(g["nbr_grow"], N[2:])}',
+        '', 'end Atomman.C03.Gen', '']
+    return {'NlistStorage': '\n'.join(out)}
 
 
 # ----------------------------------------------------------------------------------------
@@ -675,12 +920,21 @@ def _correspond_case(ctx, case, name, tmpdir, roundtrip):
         return
     t = out.split()
     mcap, near_cut, near_edge, ncands, nent = int(t[1]), t[2] == '1', t[3] == '1', int(t[4]), int(t[5])
-    mrows = _parse_rows([int(x) for x in t[6:]], n)
+    maxbin, maxapb = int(t[6]), int(t[7])
+    mrows = _parse_rows([int(x) for x in t[8:]], n)
+    ctx.extra['max_atoms_in_one_bin'] = max(ctx.extra.get('max_atoms_in_one_bin', 0), maxbin)
+    if maxapb > 40:
+        g = ctx.extra.setdefault('bin_table_growths', {})
+        g[str((maxapb - 40) // 10)] = g.get(str((maxapb - 40) // 10), 0) + 1
+    growths = max(0, -(-(max([len(r) for r in mrows] or [0]) - init) // delta))
+    if growths >= 3:
+        ctx.extra['cases_with_3plus_row_growths'] = ctx.extra.get('cases_with_3plus_row_growths', 0) + 1
     ctx.stats.case('corr:' + case['regime'], _line(case, init, delta), nontrivial=any(mrows),
                    sample={'natoms': n, 'pbc': case['pbc'], 'cutoff': case['cutoff'], 'initialsize': init,
                            'deltasize': delta, 'compared_pairs': ncands, 'atoms_and_ghosts': nent,
                            'max_coord': max([len(r) for r in mrows] or [0]), 'near_cutoff': near_cut,
-                           'near_bin_edge': near_edge})
+                           'near_bin_edge': near_edge, 'max_atoms_in_one_bin': maxbin,
+                           'final_maxatomsperbin': maxapb})
     ctx.extra['near_edge_cases'] = ctx.extra.get('near_edge_cases', 0) + int(near_edge)
     exempt = (near_cut and case['regime'] != 'grid') or (near_edge and case['regime'] == 'outside')
     if exempt:
@@ -922,6 +1176,65 @@ def gen_seq_start(rng, it):
     return _case(v, origin, pos, pbc, cutoff, 'float', rng.choice([None, 1, 3, 20]), rng.choice([None, 1, 2, 10]))
 
 
+def _diff_ops(a, b):
+    """the model operations (`P`/`A`/`B`/`C` of the `seq` request) that turn state `a` into state `b`."""
+    np = _np()
+    ops = []
+    if a['vects'] != b['vects'] or a['origin'] != b['origin']:
+        ops.append('B ' + cm.frs(np.array(b['vects'])) + ' ' + cm.frs(b['origin']))
+    if a['pbc'] != b['pbc']:
+        ops.append('C ' + ' '.join(str(int(x)) for x in b['pbc']))
+    if len(a['pos']) == len(b['pos']):
+        ch = [i for i in range(len(b['pos'])) if a['pos'][i] != b['pos'][i]]
+        if len(ch) == 1:
+            ops.append(f'P {ch[0]} ' + cm.frs(b['pos'][ch[0]]))
+            return ops
+        if not ch:
+            return ops
+    flat = [x for p in b['pos'] for x in p]
+    ops.append(f'A {len(b["pos"])}' + ((' ' + cm.frs(flat)) if flat else ''))
+    return ops
+
+
+def _seq_compare(ctx, start, seq_ops, observed):
+    """the whole history as ONE request to the model (`answers` of Atomman/C03.lean): every query answered from
+    the state `applyOp` has produced at that point; compared with what the real object answered."""
+    np = _np()
+    n0 = len(start['pos'])
+    flat = [x for p in start['pos'] for x in p]
+    line = (f"seq {int(start['pbc'][0])} {int(start['pbc'][1])} {int(start['pbc'][2])} {TOL} "
+            + cm.frs(np.array(start['vects'])) + ' ' + cm.frs(start['origin']) + f' {n0}'
+            + ((' ' + cm.frs(flat)) if flat else '') + ' ' + ' '.join(seq_ops))
+    out = ctx.driver.ask(line)
+    if out.startswith('err'):
+        ctx.disagree('driver', f'model refused the sequence: {out}', observed[-1][4])
+        return
+    parts = [p.split() for p in out[2:].split('|')[1:]]
+    if len(parts) != len(observed):
+        ctx.disagree('driver', f'{len(parts)} model answers for {len(observed)} queries', observed[-1][4])
+        return
+    for t, (rows, coord, cap, what_q, payload, via, hist) in zip(parts, observed):
+        if t[0].startswith('err'):
+            ctx.stats.case('corr:sequence-undefined', ' '.join(t), nontrivial=False)
+            continue
+        n = int(t[0])
+        mcap, near_cut = int(t[1]), t[2] == '1'
+        mrows = _parse_rows([int(x) for x in t[8:]], n)
+        ctx.stats.case('corr:sequence', (line, what_q), nontrivial=any(mrows),
+                       sample={'natoms': n, 'operations_before': hist, 'entry': VIA[via]})
+        if near_cut:
+            continue
+        if rows != mrows or coord != [len(r) for r in mrows]:
+            diff = [i for i in range(max(n, len(rows))) if i >= len(rows) or i >= n or rows[i] != mrows[i]][:3]
+            ctx.disagree('sequence', f'{what_q}: rows differ from the model (answers of the operation sequence) at atoms '
+                         f'{diff}: implementation {[rows[i] for i in diff if i < len(rows)]}, model '
+                         f'{[mrows[i] for i in diff if i < n]}', payload)
+            return
+        if cap != mcap:
+            ctx.disagree('capacity', f'{what_q}: final storage width {cap} != model {mcap}', payload)
+            return
+
+
 def run_sequence(ctx, rng, it, mode, tmpdir, script=None):
     """query -> one small change -> query ... on one object. `mode`: 'corr' compares every answer with the Lean model
     evaluated on the state read back from the object at that moment, 'oracle' with the exact clauses.
@@ -940,6 +1253,7 @@ def run_sequence(ctx, rng, it, mode, tmpdir, script=None):
         favoured = rng.choice([0, 1, 1, 2])
         vias = [favoured if rng.random() < 0.7 else rng.randrange(3) for _ in range(nsteps + 1)]
     payload = {'op': 'sequence', 'start': start, 'steps': [], 'vias': vias}
+    seq_ops, observed, last_state = [], [], dict(start)
     for k in range(nsteps + 1):
         via = vias[k]
         if k > 0:
@@ -957,6 +1271,8 @@ def run_sequence(ctx, rng, it, mode, tmpdir, script=None):
                                 f'raised {type(e).__name__}: {e}', payload)
                 elif len(ctx.notes) < 5:
                     ctx.notes.append(f'sequence op {op["op"]} raised {type(e).__name__}: {str(e)[:80]}')
+                if mode == 'corr' and observed:
+                    _seq_compare(ctx, start, seq_ops, observed)
                 return
             if must is not None and prev is not None and (must[0] != prev[1] or must[1] != prev[2]):
                 ctx.violate('roundtrip', f'System.neighborlist(model=file) after NeighborList.dump(file) gives '
@@ -987,28 +1303,15 @@ def run_sequence(ctx, rng, it, mode, tmpdir, script=None):
                 return
         else:
             init, delta = q['init'] or 20, q['delta'] or 10
-            out = ctx.driver.ask(_line(case, init, delta))
-            if out.startswith('err'):
-                ctx.stats.case('corr:sequence-undefined', out, nontrivial=False)
-            else:
-                t = out.split()
-                mcap, near_cut, near_edge = int(t[1]), t[2] == '1', t[3] == '1'
-                mrows = _parse_rows([int(x) for x in t[6:]], n)
-                ctx.stats.case('corr:sequence', (_line(case, init, delta), via), nontrivial=any(mrows),
-                               sample={'natoms': n, 'operations_before': hist, 'entry': VIA[via]})
-                if not near_cut:
-                    if rows != mrows or coord != [len(r) for r in mrows]:
-                        diff = [i for i in range(n) if i >= len(rows) or rows[i] != mrows[i]][:3]
-                        ctx.disagree('sequence', f'{what_q}: rows differ from the model evaluated on the current state '
-                                     f'at atoms {diff}: implementation {[rows[i] for i in diff if i < len(rows)]}, model '
-                                     f'{[mrows[i] for i in diff]}', payload)
-                        return
-                    if cap != mcap:
-                        ctx.disagree('capacity', f'{what_q}: final storage width {cap} != model {mcap}', payload)
-                        return
+            seq_ops.extend(_diff_ops(last_state, case))
+            seq_ops.append(f'Q {cm.fr(case["cutoff"])} {init} {delta}')
+            last_state = case
+            observed.append((rows, coord, cap, what_q, payload, via, hist))
         if nl is not None:
             prev = (nl, rows, coord)
             answers.append(prev)
+    if mode == 'corr' and observed:
+        _seq_compare(ctx, start, seq_ops, observed)
     for nl, rows, coord in answers:
         try:
             now = (_rows(nl), [int(c) for c in nl.coord])
@@ -1061,6 +1364,10 @@ def _search_case(ctx, case, kind, name, full):
         # lists agree with am.dmag of the real code (outside the tie band)
         if n >= 2:
             _dmag_crosscheck(ctx, case, system, rows, cls)
+        if kind in ('shear', 'general', 'grid') and 2 <= n <= 40:
+            ctx.extra['_tn'] = ctx.extra.get('_tn', 0) + 1
+            if ctx.thorough or ctx.extra['_tn'] % 4 == 0:
+                _true_nearest_report(ctx, case, rows)
 
 
 def _dmag_crosscheck(ctx, case, system, rows, cls):
